@@ -92,6 +92,10 @@ def requests_for(case, run):
     if case['cls'] == 'hsm':
         noex = dict(case, extras={})
         reqs.append(('c06mon', [L] + locked.enc_cfg(noex) + [n] + locked.enc_events(ev)))
+        # the model of a hierarchical machine that DOES hold model contexts (= the flat protocol, for which
+        # the full-strength theorems hold): an implementation that behaves like it is accepted as well
+        flat = dict(case, cls='flat')
+        reqs.append(('c06run', locked.enc_cfg(flat) + locked.enc_progs(progs) + [len(sched)] + sched))
     return reqs
 
 
@@ -117,17 +121,21 @@ def judge(case, run, answers, serial_cache):
     if st in ('deadlock', 'hang', 'too-long'):
         fails.append(('monitor', st, {'events_tail': ev[-12:], 'blocked': [b.cid if b else None for b in run.ctl.blocked_on]}, None))
     # correspondence with the model: same schedule, same programs → same events
-    ans = answers[0]
-    try:
-        tpart, rest = ans.split(' B ')
-        nums = [int(x) for x in tpart.split()[1:]]
-        mtrace = [nums[1 + 4 * i:5 + 4 * i] for i in range(nums[0])]
-        bpart, rest = rest.split(' D ')
-        dpart, rest = rest.split(' C ')
-        cur = int(rest.split(' M ')[0])
-        done = [int(x) for x in dpart.split()]
-    except Exception:
-        raise common.MachineryError('bad c06run answer: %r' % ans[:200])
+    def parse_run(ans):
+        try:
+            tpart, rest = ans.split(' B ')
+            nums = [int(x) for x in tpart.split()[1:]]
+            tr = [nums[1 + 4 * i:5 + 4 * i] for i in range(nums[0])]
+            _bpart, rest = rest.split(' D ')
+            dpart, rest = rest.split(' C ')
+            return tr, [int(x) for x in dpart.split()], int(rest.split(' M ')[0])
+        except Exception:
+            raise common.MachineryError('bad c06run answer: %r' % ans[:200])
+    mtrace, done, cur = parse_run(answers[0])
+    if mtrace != ev and len(answers) > 3:
+        alt = parse_run(answers[3])
+        if alt[0] == ev:
+            mtrace, done, cur = alt
     if mtrace != ev:
         i = 0
         while i < min(len(mtrace), len(ev)) and mtrace[i] == ev[i]:
@@ -254,7 +262,18 @@ class _Mk(object):
         return threads.RandomPolicy(random.Random(self.arg), self.p)
 
 
+def _alarm(seconds):
+    """hard per-worker watchdog: a stuck worker becomes a machinery error, never a stuck check"""
+    import signal
+
+    def on_alarm(_sig, _frm):
+        raise common.MachineryError('C06 worker exceeded %d s' % seconds)
+    signal.signal(signal.SIGALRM, on_alarm)
+    signal.alarm(seconds)
+
+
 def random_worker(seed, count, lo, hi, maxcalls):
+    _alarm(900)
     rng = random.Random(seed)
     items = []
     for _ in range(count):
@@ -274,6 +293,7 @@ def preemptions(choices, runnable_hist):
 def enum_worker(seed, bound, cap):
     """every schedule of one small program (2 threads x <= 2 calls) with at most `bound` preemptions
     (a preemption = switching away from a thread that could have continued); `cap` limits the count"""
+    _alarm(900)
     rng = random.Random(seed)
     case = gen_case(rng, 2, 2)
     total = runner.Exploration()
